@@ -122,6 +122,7 @@ h("C12", "c12::c12_flags_structural", funcs=["DataTransmissionEnabled::*", "alar
 h("C12", "c12::c12_clutter_mitigation", funcs=["Message::clutter_mitigation_decision_status"], space="all values 0..=63", bounds="unwind 8", mem=6)
 h("C12", "c12::c12_scaled", funcs=["Message::{horizontal_reflectivity_calibration_correction,rda_build_number,volume_coverage_pattern}", "VolumeCoveragePatternNumber::*"], space="all 2^16 raw values", bounds="complete", mem=6, timeout=1500)
 h("C12", "c12::c12_alarm_lookup_1023", funcs=["alarm::get_alarm_message"], space="all codes 0..=1023", bounds="complete on the stated range", mem=12, timeout=1800)
+h("C12", "c12::c12_alarm_lookup_high_bits", funcs=["alarm::get_alarm_message"], space="all codes low | (1 << k), low <= 1023, k in 10..=15", bounds="complete on the stated set", mem=12, timeout=1800)
 h("C12", "c12::c12_alarm_lookup_all", tier="thorough", funcs=["alarm::get_alarm_message"], space="all 2^16 codes", bounds="complete", mem=16, timeout=3600)
 h("C12", "c12::c12_alarm_messages_order", funcs=["Message::alarm_messages", "alarm::get_alarm_message"], space="two concrete 14-code layouts (zeros leading/trailing/between, a repeated code)", bounds="unwind 16", mem=10, timeout=1500)
 h("C12", "c12::c12_alarm_messages_symbolic_code", tier="thorough", funcs=["Message::alarm_messages", "alarm::get_alarm_message"], space="one symbolic code 0..=800 between two concrete ones", bounds="unwind 16", mem=16, timeout=3600)
@@ -211,10 +212,12 @@ prop("C13",
      outside="more than one elevation segment (c13_structure_s2: probe tier, 720 iterations); other placements of non-empty azimuths; zone counts above 2; cut points between byte 40 and the last zone list")
 CFM = ["clutter_filter_map::decode_clutter_filter_map", "util::deserialize", "RangeZone::op_code"]
 h("C13", "c13::c13_structure_s0", tier="quick", funcs=CFM, space="all headers with 0 segments", bounds="S = 0", mem=8)
-h("C13", "c13::c13_structure_s1", tier="thorough", funcs=CFM, space="1 segment x 360 azimuths; zones (2,1,2) at azimuths 0,1,359 with symbolic values", bounds="S = 1; unwind 362", mfs=1024, mem=24, timeout=7200)
+h("C13", "c13::c13_structure_s1", tier="thorough", funcs=CFM, space="1 segment x 360 azimuths; zones (2,1,2) at azimuths 0,1,359 with symbolic values", bounds="S = 1; unwind 362", mfs=1024, mem=44, timeout=9000)
 h("C13", "c13::c13_structure_s2", tier="probe", funcs=CFM, space="2 segments x 360 azimuths; zones (1,0,2)", bounds="S = 2; unwind 362", mfs=16384, mem=40, timeout=21600)
 h("C13", "c13::c13_truncated", tier="probe", funcs=CFM, space="one declared segment, zero zone counts, every cut point 0..=726", bounds="unwind 362", mfs=16384, mem=24, timeout=10800, unwind_is_violation=True)
 h("C04", "c04::c04_type31_one_block_free", tier="probe", funcs=["decode_digital_radar_data", "Message::radial", "GenericDataBlock::new"], space="all 2^(8*74) 76-byte inputs with block count 1: pointer, block type/name, gates, word size free", bounds="fixed length 76, 1 block; unwind 12", mem=16, mfs=128, unwind_is_violation=True, timeout=2400)
+h("C07", "c07::c07_collection_time_beyond_24h_window", funcs=["Message::radial", "digital_radar_data::Header::date_time", "util::get_datetime"], space="time-of-day field in 86,400,000..=86,465,535 on a fixed date", bounds="no loop; complete over the stated window", mem=12, timeout=1800)
+h("C07", "c07::c07_collection_time_beyond_24h", tier="thorough", funcs=["Message::radial", "digital_radar_data::Header::date_time", "util::get_datetime"], space="every time-of-day field in 86,400,000..=u32::MAX on a fixed date", bounds="no loop; complete over the stated domain", mem=12, timeout=1800)
 h("C07", "z::c07_value_formula", kind="z", script="smt/z_c07.py", funcs=["GenericDataBlock::scaled_value (MIR)", "MomentData::value_of (MIR)"], space="all 2^16 raw gate values x all finite f32 scale x all finite f32 offset (levels: every f32 bit pattern)", bounds="loop-free closures: no bound; QF_FP, z3 and cvc5 must agree", mem=6, timeout=1200)
 for nm, sp in (("c04_type31_unknown_name", "unknown ASCII block name XYZ"), ("c04_type31_moment_free_sizes", "moment block REF"), ("c04_type31_non_utf8_name", "non-UTF-8 block name ff fe 41")):
     h("C04", "c04::%s" % nm, funcs=["decode_digital_radar_data", "Message::radial", "GenericDataBlock::new"], space="76-byte message, one block at offset 36 (%s): block type, gate count, word size, scale, offset free; other bytes zero" % sp, bounds="fixed length 76, concrete name; unwind 12", mem=12, mfs=128, unwind_is_violation=True, timeout=1800)
@@ -241,7 +244,7 @@ prop("C14",
 SUMF = ["summarize::messages", "summarize::rda::extract_rda_status_info", "summarize::vcp::extract_vcp_info", "MessageHeader::{message_type,date_time}"]
 for nm, sp, tier in (("c14_pat_rsr", "radial, status, radial: all 256^3 elevation numbers, all non-NaN azimuth angles", "quick"),
                      ("c14_pat_rvr", "radial, VCP, radial: all 256^3 elevation numbers, all non-NaN azimuth angles", "thorough"),
-                     ("c14_pat_ssv", "status, status, VCP", "quick"),
+                     ("c14_pat_ssv", "status, status, VCP (two status decodes: peaks above 20 GB)", "probe"),
                      ("c14_lab_r1r1r2r1", "radials with elevation labels 1,1,2,1; all non-NaN azimuth angles", "quick"),
                      ("c14_lab_r1o13o13r1", "radial(1), other(13), other(13), radial(1); all non-NaN azimuth angles", "quick"),
                      ("c14_lab_sr3r3v", "status, radial(3), radial(3), VCP; all non-NaN azimuth angles", "thorough"),
@@ -249,6 +252,8 @@ for nm, sp, tier in (("c14_pat_rsr", "radial, status, radial: all 256^3 elevatio
                      ("c14_lab_r2r2r2sr2r5", "radial(2) x3, status, radial(2), radial(5); all non-NaN azimuth angles", "thorough"),
                      ("c14_pat_rrr", "three radials, all 256^3 elevation numbers", "probe"),
                      ("c14_pat_rr", "two radials, all 256^2 elevation numbers (out of 30 GB in propositional reduction)", "probe"),
+                     ("c14_data_counts_same_elevation", "two radials of elevation 3 (REF+VEL+VOL(212); REF+VOL(35)): per-group data-type counts and the VCP set", "probe"),
+                     ("c14_data_counts_two_elevations", "two radials of elevations 3 and 4 (REF+VEL+VOL(212); REF): per-group data-type counts and the VCP set", "probe"),
                      ("c14_data_counts_and_vcp_set", "two radials (REF+VEL+VOL(212); REF and optionally VOL(35)), both elevation numbers symbolic: per-group data-type counts and the VCP set", "probe")):
     h("C14", "c14::%s" % nm, tier=tier, funcs=SUMF, space=sp, bounds="concrete kinds; N = %d; unwind 8-40" % (3 if "pat_r" in nm or "ssv" in nm else 2 if "data" in nm else 6 if "r2r2r2" in nm else 4), mfs=32768, mem=20, timeout=2400)
 for n, tier, mem, to in ((0, "probe", 8, 900), (1, "probe", 16, 1800), (2, "probe", 24, 2400), (3, "probe", 40, 7200)):
@@ -272,6 +277,8 @@ h("C16", "c16::c16_sequence_digits", funcs=CI + ["ChunkIdentifier::sequence (rea
 h("C16", "c16::c16_sequence_field_ascii", funcs=CI + ["ChunkIdentifier::sequence (real)"], space="all 2^21 three-byte ASCII sequence fields (digits, signs, dashes, letters)", bounds="21-byte name; unwind 24", mem=12, timeout=1800, stubs=[MC])
 h("C16", "c16::c16_chunk_name_total", tier="probe", funcs=["ChunkIdentifier::{new,sequence,chunk_type}"], space="all names of 0..=24 bytes: free ASCII with one 2-byte character at any position", bounds="L = 24; unwind 28", mem=16, timeout=1800, stubs=[MC])
 h("C16", "c16::c16_successor_real_parser", funcs=["ChunkIdentifier::{sequence,next_chunk}", "VolumeIndex"], space="all 1000 three-digit sequences x volumes 1..=999 on the real parser", bounds="unwind 24; successor name text stubbed", mem=12, timeout=1800, stubs=[MC])
+for nm, sf in (("none", "(none)"), ("gz", ".gz"), ("v06", "V06"), ("us_v06", "_V06")):
+    h("C16", "c16::c16_archive_suffix_%s" % nm, funcs=["archive::Identifier::{new,date_time}"], space="KTLX + all valid 8 date digits + '_' + all valid 6 time digits + concrete suffix %s" % sf, bounds="concrete site and suffix; chrono parsers replaced by recorders; unwind 28", mem=12, timeout=1800)
 h("C16", "c16::c16_successor_name_text", tier="probe", funcs=["ChunkIdentifier::next_chunk", "core::fmt (real, not stubbed)"], space="every three-digit sequence below 55: successor name text", bounds="unwind 24; no verdict in 30 min (core::fmt)", mem=16, timeout=1800, stubs=[MC])
 h("C16", "c16::c16_archive_name_wellformed", funcs=["archive::Identifier::{new,site,date_time}"], space="all names SSSS + 8 date digits + '_' + 6 time digits + any ASCII suffix of 0..=5 bytes (valid calendar digits)", bounds="L = 19..=24; chrono's NaiveDate/NaiveTime::parse_from_str replaced by recorders that accept exactly 8 / 6 digits; unwind 28", mem=12, timeout=1800)
 for t, k in ((0, None), (1, None), (2, None), (3, None), (4, None), (5, None), (5, 2), (5, 3), (3, 1)):
@@ -279,6 +286,7 @@ for t, k in ((0, None), (1, None), (2, None), (3, None), (4, None), (5, None), (
 h("C16", "c16::c16_archive_name_total", funcs=["archive::Identifier::{new,site,date_time}"], space="all strings of 0..=24 bytes: free ASCII with one 2-byte character at any position", bounds="L = 24; chrono's NaiveDate/NaiveTime::parse_from_str stubbed by 'any result'; unwind 28", mem=12, timeout=1800)
 for nm, sp in (("c04_type31_far_pointer_256m", "0x1000_0000"), ("c04_type31_far_pointer_max", "0xFFFF_FFFF")):
     h("C04", "c04::%s" % nm, tier="probe", funcs=["decode_digital_radar_data", "alloc::alloc::{alloc,alloc_zeroed,realloc} (request-size cap asserted)"], space="76-byte message, one block pointer = %s (concrete, far beyond the input), the other 30 header bytes free" % sp, bounds="fixed length 76, concrete pointer; unwind 32; every allocation request <= 16 MiB", mem=12, mfs=128, unwind_is_violation=True, timeout=1800)
+h("C02", "z::c02_gate_buffer_exact", kind="z", script="smt/z_c04.py", funcs=["GenericDataBlock::new (MIR)"], space="all 2^16 gate counts x all 2^8 word sizes: allocation size == gates x (word / 8)", bounds="loop-free; QF_BV; z3 and cvc5 must agree", mem=6, timeout=900)
 h("C04", "z::c04_gate_buffer_bound", kind="z", script="smt/z_c04.py", funcs=["GenericDataBlock::new (MIR)"], space="all 2^16 gate counts x all 2^8 word sizes", bounds="loop-free; QF_BV; z3 and cvc5 must agree", mem=6, timeout=900)
 # the 'BZ' predicate and the decompress/decode error gates are part of C05's statement as well
 h("C05", "c06::c06_record_compressed", funcs=["volume::Record::{from_slice,new,data,compressed}"], space="all byte strings of length 0..=12", bounds="L = 12", mem=4)
@@ -288,9 +296,9 @@ for nm, sp in (("c02_two_vol_ref", "VOL then REF, contiguous, pointers in order"
                ("c02_two_elv_rad_gap", "ELV then RAD after a 4-byte gap"), ("c02_two_phi_rho_permuted", "PHI then RHO, gap 2, pointer table permuted"),
                ("c02_two_cfp_zdr", "CFP then ZDR, gap 1")):
     h("C02", "c02::%s" % nm, tier="quick" if nm in ("c02_two_ref_vol_permuted_gaps",) else "thorough", funcs=D31, space="header + 2 blocks (%s): all other bytes symbolic, word size 8|16" % sp, bounds="2 blocks, concrete layout; unwind 10", mfs=256, mem=16, timeout=2400)
-h("C13", "c13::c13_cut_last_zone_at_730", tier="thorough", funcs=CFM, space="one segment whose azimuth 359 declares two zones (symbolic values); body cut after the first of them (730 of 734 bytes)", bounds="concrete cut point; unwind 362", mfs=1024, mem=24, timeout=7200)
-for k, z in ((5, 0), (6, 0), (7, 0), (13, 2), (16, 2), (40, 1)):
-    h("C13", "c13::c13_truncated_at_%d%s" % (k, "_z%d" % z if z and k != 40 else ""), tier="probe", funcs=CFM, space="body cut after %d bytes: segment count symbolic in 1..=255, date/time symbolic, first azimuth declares %d zones with symbolic values" % (k, z), bounds="concrete cut point %d; unwind 24" % k, mem=8, timeout=900)
+h("C13", "c13::c13_cut_last_zone_at_730", tier="thorough", funcs=CFM, space="one segment whose azimuth 359 declares two zones (symbolic values); body cut after the first of them (730 of 734 bytes)", bounds="concrete cut point; unwind 362", mfs=1024, mem=30, timeout=9000)
+for k, z in ((5, 0), (6, 0), (7, 0), (13, 2), (16, 2), (20, 1)):
+    h("C13", "c13::c13_truncated_at_%d%s" % (k, "_z%d" % z if z and k != 20 else ""), tier="probe", funcs=CFM, space="body cut after %d bytes: segment count symbolic in 1..=255, date/time symbolic, first azimuth declares %d zones with symbolic values" % (k, z), bounds="concrete cut point %d; unwind 10" % k, mem=12, timeout=1200)
 h("C13", "c13::c13_truncated_early", tier="probe", funcs=CFM, space="one declared segment, zero zone counts, every cut point 0..=30", bounds="L = 30; unwind 16", mem=12, timeout=1800, unwind_is_violation=True)
 h("C09", "c09::c09_merge_stable_12_12_concrete", tier="thorough", funcs=MG, space="one concrete pair of 12-radial sweeps with pairwise colliding azimuth numbers (24 elements: beyond the insertion-sort threshold)", bounds="concrete input; unwind 26", mfs=16384, mem=24, timeout=3600)
 h("C14", "c14::c14_probe_concrete", tier="thorough", funcs=SUMF, space="one concrete list R(1) R(1) S R(1) O(13) O(13)", bounds="concrete input; unwind 10", mfs=32768, mem=20, timeout=2400)
